@@ -273,10 +273,11 @@ def gen_case(rng, index, thorough):
         if extra.random() < 0.3:
             # the same linear sequence handed over as a json residue graph, numbered from 0, 1 or an offset
             first = extra.choice([0, 0, 1, 4])
+            step = extra.choice([1, 1, 1, 2])               # 2 = gapped numbering (0, 2, 4 ... / 1, 3, 5 ...)
             flat = [r for r, n in seq for _ in range(n)]
             del spec["seq"]
             spec["seq_json"] = {"directed": False, "multigraph": False, "graph": {},
-                                "nodes": [{"id": i, "resname": r, "resid": i + first} for i, r in enumerate(flat)],
+                                "nodes": [{"id": i, "resname": r, "resid": first + step * i} for i, r in enumerate(flat)],
                                 "edges": [{"source": i - 1, "target": i} for i in range(1, len(flat))]}
     else:
         # a branched residue graph: random tree, parent always has the lower key
